@@ -16,6 +16,38 @@ from sismic.interpreter import Interpreter  # noqa: E402
 from sismic.io import export_to_yaml, import_from_yaml  # noqa: E402
 from sismic.model import CompoundState  # noqa: E402
 
+from sismic.model import (BasicState as _B, FinalState as _F, ShallowHistoryState as _SH, DeepHistoryState as _DH,  # noqa: E402
+                          OrthogonalState as _O)
+
+
+class MyFinal(_F):
+    """user subclasses (e.g. carrying layout metadata); the library tests kinds with isinstance everywhere"""
+
+
+class MyShallow(_SH):
+    pass
+
+
+class MyDeep(_DH):
+    pass
+
+
+class MyBasic(_B):
+    pass
+
+
+class MyOrthogonal(_O):
+    pass
+
+
+SUBCLASSES = dict(final=MyFinal, shallow=MyShallow, deep=MyDeep, basic=MyBasic, orthogonal=MyOrthogonal)
+BASE_KINDS = (_F, _SH, _DH, CompoundState, _O, _B)
+
+
+def kind(state):
+    return next(k.__name__ for k in BASE_KINDS if isinstance(state, k))
+
+
 PID = 'C11'
 LEVEL = 'exploration'
 RULE = ('One case = (a) "text torture": a generated structure whose state names, event names, description, preamble and every '
@@ -27,7 +59,7 @@ RULE = ('One case = (a) "text torture": a generated structure whose state names,
         'containing >= 1 torture string and >= 1 of {history, orthogonal, contract, priority != 0}.')
 ASSUMPTIONS = ['characters YAML cannot carry without escaping rules of its own (C0/C1 controls other than \\n \\t, U+2028/2029, BOM, '
                'surrogates, \\r) are excluded; event names carry no surrounding whitespace; code strings are non-empty after stripping']
-REQUIRED_COUNTERS = ['roundtrips_through_existing_file', 'yaml_1_1_document_imported_before', 'roundtrips', 'fields_compared', 'eq_checks', 'second_roundtrips', 'behaviour_steps_compared',
+REQUIRED_COUNTERS = ['charts_with_user_subclasses', 'roundtrips_through_existing_file', 'yaml_1_1_document_imported_before', 'roundtrips', 'fields_compared', 'eq_checks', 'second_roundtrips', 'behaviour_steps_compared',
                      'shipped_roundtrips', 'charts_with_long_nonascii', 'charts_with_noncontiguous_transitions']
 TIERS = dict(quick=dict(steps=25, gen=dict(max_states=10, max_depth=4, max_trans=12)),
              thorough=dict(steps=45, gen=dict(max_states=16, max_depth=5, max_trans=22)))
@@ -122,8 +154,8 @@ def compare_structure(a, b):
     n_fields = 0
     for n in a.states:
         sa, sb = a.state_for(n), b.state_for(n)
-        if type(sa) is not type(sb):
-            return 'kind of %r differs: %s vs %s' % (n, type(sa).__name__, type(sb).__name__)
+        if kind(sa) != kind(sb):
+            return 'kind of %r differs: %s vs %s' % (n, kind(sa), kind(sb))
         if a.parent_for(n) != b.parent_for(n):
             return 'parent of %r differs' % n
         if sorted(a.children_for(n)) != sorted(b.children_for(n)):
@@ -251,8 +283,11 @@ def torture_case(acc, rnd, tier):
     padded = rnd.random() < 0.5
     coder = TextCoder(rnd, padded)
     # unique actions so that transitions are distinguishable is NOT required here: duplicates are legal
-    sc, _ = build.build_api(ch, coder=coder)
-    wit = dict(chart=ch, padded=padded, texts={repr(k): v for k, v in coder.memo.items()})
+    sub = rnd.random() < 0.25
+    if sub:
+        acc.count('charts_with_user_subclasses')
+    sc, _ = build.build_api(ch, coder=coder, klass=SUBCLASSES if sub else None)
+    wit = dict(chart=ch, padded=padded, user_subclasses=sub, texts={repr(k): v for k, v in coder.memo.items()})
     src = [t['source'] for t in ch['transitions']]
     if any(src[i] != src[i - 1] and src[i] in src[:i - 1] for i in range(2, len(src))):
         acc.count('charts_with_noncontiguous_transitions')
@@ -295,8 +330,11 @@ def behaviour_case(acc, rnd, tier):
     ch0 = gen_chart(rnd, mode=rnd.choice((None, 'orth', 'history', 'order')), p_hist=0.35, p_state_send=0.15, **T['gen'])
     smap, emap = torture_names(rnd, ch0)
     ch = rename_chart(ch0, smap, emap)
-    sc, tmap = build.build_api(ch)
-    wit = dict(chart=ch)
+    sub = rnd.random() < 0.25
+    if sub:
+        acc.count('charts_with_user_subclasses')
+    sc, tmap = build.build_api(ch, klass=SUBCLASSES if sub else None)
+    wit = dict(chart=ch, user_subclasses=sub)
     y, sc2 = roundtrip(acc, sc, wit)
     if sc2 is None:
         return
